@@ -107,6 +107,23 @@ def ctor_kwargs(kind, x):
     return kw, unmapped
 
 
+def enum_or_int_params(kind):
+    """constructor parameters annotated Union[<Enum class>, int] (read from the current source): [(name, enum class)]"""
+    import typing
+    try:
+        sig = inspect.signature(kind.cls.__init__, eval_str=True)
+    except Exception:
+        sig = inspect.signature(kind.cls.__init__)
+    out = []
+    for name, p in list(sig.parameters.items())[1:]:
+        args = typing.get_args(p.annotation)
+        if int in args:
+            for a in args:
+                if isinstance(a, type) and issubclass(a, enum.Enum):
+                    out.append((name, a))
+    return out
+
+
 def flag_params(kindname):
     """constructor parameters that are boolean flags (annotation mentions bool), read from the current source"""
     kind = KINDS[kindname]
@@ -172,6 +189,23 @@ def decode_roundtrip(hx, kindname, bits=None, known=None, part="fixed"):
                     continue
                 hx.prove(feq(getattr(x, fld), getattr(f, fld, None)), "%s %s: field %s survives build -> serialise -> parse" % (kindname, tag, fld),
                          known=(known or {}).get(fld))
+        # ---- parameters declared Union[<Enum>, int]: passing the member instead of its integer value builds the same PDU
+        for name, ecls in enum_or_int_params(kind):
+            v = kw.get(name)
+            if v is None or isinstance(v, (enum.Enum, bool)) or v.__class__.__name__ == "Choice":
+                continue
+            ste, member = hx.guard(ecls, v)
+            if ste != "ok" or member is None:
+                continue
+            defined = T(member.value == v)                   # an undefined value maps to a reserved member, which cannot carry the original integer
+            if defined.__class__ is not Bit and not defined:
+                continue
+            kwe = dict(kw)
+            kwe[name] = member
+            stc, xe = hx.guard(kind.cls, **kwe)
+            hx.prove(IMPLIES(defined, stc == "ok"), "%s %s: constructing with %s given as a %s member does not fail (%s)" % (kindname, tag, name, ecls.__name__, xe if stc == "exc" else ""))
+            if stc == "ok":
+                hx.prove(IMPLIES(defined, xe.as_bits() == y2), "%s %s: %s given as a %s member or as its (defined) integer value serialises to the same bits" % (kindname, tag, name, ecls.__name__))
         # ---- flags the decoder never produces with both values (it may ignore them): if the ENCODER writes a flag into the
         #      bits, the decoder has to read the same value back
     if part.startswith("flag:"):
